@@ -92,7 +92,9 @@ def expect(ctx, res, value, grads, inputs, rtol=1e-8, tag='', check_value=True, 
         elif 'exc' in rr:
             probs.append(('disagree', tag + 'model-raises', rr['exc']))
         else:
-            d2 = compare_q(res, decode_obs(rr['obs']), rtol=rtol)
+            m_ = decode_obs(rr['obs'])
+            m_.mag = dict(q.mag)     # scale of what was added up (contributions may cancel to rounding noise)
+            d2 = compare_q(res, m_, rtol=rtol)
             d2 = [z for z in d2 if not z.startswith('r_value')]
             if d2:
                 probs.append(('disagree', tag + 'model-vs-impl', d2[:3]))
